@@ -47,6 +47,14 @@ PROPS = {
                                  'const_MAX_STRING_SIZE_eq'], theorems=[]),
 }
 
+# ties of the generic mechanism and of the command classification to the source (Bridge/Mech, Bridge/Effects)
+MECH = ['mech_setValue_eq', 'mech_setExpire_eq', 'mech_update_eq', 'mech_updated_eq', 'mech_writeback_eq']
+PROPS['C06']['bridge'] += MECH + ['effects_read_commands_write_nothing', 'effects_nowrite_regular_is_read']
+PROPS['C07']['bridge'] += MECH + ['mech_expired_eq', 'effects_inplace_keep_setters_away', 'effects_replacing_use_value_setter']
+PROPS['C08']['bridge'] += ['mech_writeback_eq', 'effects_regular_bodies_are_pure']
+PROPS['C09']['bridge'] += ['mech_writeback_eq', 'mech_truthy_eq']
+PROPS['C13']['bridge'] += ['effects_cover_all_commands', 'effects_regular_bodies_are_pure', 'effects_special_bodies_touch_the_server']
+
 # theorem lists are kept in a separate generated-by-hand table so that they can grow without touching the above
 try:
     from obligations import OBLIGATIONS
